@@ -273,11 +273,14 @@ class Translator:
 
     def __init__(self, fn: ast.FunctionDef, lean_name: str, params: Sequence[Param], consts=None,
                  numpy_names=("np",), source_text: Optional[str] = None, exceptions=(), constructors=None,
-                 math_names=None, bitops=False, pymod=False):
+                 math_names=None, bitops=False, pymod=False, modulo=False):
         # bit-operation extension (`bitops`): `& | ^ >> << + * -` on non-negative ints (`nat`); `pymod`: `e % <positive
         # literal>` on an int / a float that is not NaN — both off unless the generator asks
         self.bitops = bool(bitops)
         self.pymod = bool(pymod)
+        # `modulo` (glue extension, off by default): `e % n` with a positive integer literal `n` on an int / a float that
+        # is not NaN (Python's and numpy's floor modulo, op "modlit"), and `a & b` on two booleans (both operands are pure)
+        self.modulo = bool(modulo)
         # glue extension: `exceptions` = names that may be raised (`raise ValueError("…")`), `constructors` = {local name:
         # arity} of calls accepted as the returned value (`Window(a, b, c, d)`, returned as the tuple of its arguments),
         # `math_names` = {local name: "ceil" | "floor"} bound by `from math import …` (all checked by the generator)
@@ -888,6 +891,20 @@ class Translator:
                 return Ex("neg", e.ty, (e,))
             raise Unsupported(f"{fn}: unary operator `{src(node)}`")
         if isinstance(node, ast.BinOp):
+            if self.modulo and isinstance(node.op, ast.Mod):
+                n = node.right
+                if not (isinstance(n, ast.Constant) and isinstance(n.value, int) and not isinstance(n.value, bool) and n.value >= 1):
+                    raise Unsupported(f"{fn}: `%` with a divisor that is not an integer literal >= 1: `{src(node)}`")
+                base = self.expr(node.left, env, facts)
+                if base.ty not in (INT, RAT):
+                    raise Unsupported(f"{fn}: `%` on a {base.ty}")
+                return Ex("modlit", base.ty, (base,), n.value)
+            if self.modulo and isinstance(node.op, ast.BitAnd):
+                a = self.expr(node.left, env, facts)
+                b = self.expr(node.right, env, facts)
+                if a.ty != BOOL or b.ty != BOOL:
+                    raise Unsupported(f"{fn}: `&` on {a.ty} and {b.ty} (booleans only)")
+                return self.mk_bool("and", a, b)
             if isinstance(node.op, ast.Pow):
                 base = self.expr(node.left, env, facts)
                 n = node.right
@@ -1253,6 +1270,10 @@ def lean_expr(e: Ex) -> str:
         if e.ty == INT:
             return f"({a[0]} % {a[1]})"  # Int.emod: for a positive divisor, Python's `%`
         return f"({a[0]} - (((PyExpr.rfloor ({a[0]} / {a[1]})) : Int) : Rat) * {a[1]})"
+    if e.op == "modlit":  # floor modulo by a positive literal: x - floor(x / n) * n (glue extension)
+        if e.ty == INT:
+            return f"({a[0]} % ({e.aux} : Int))"
+        return f"({a[0]} - (((PyExpr.rfloor ({a[0]} / ({e.aux} : Rat))) : Int) : Rat) * ({e.aux} : Rat))"
     raise TranslatorBug(f"cannot render {e.op}")
 
 
@@ -1414,6 +1435,8 @@ def ev(e: Ex, env):
         q = Fraction(x) / Fraction(y)
         r = x - (q.numerator // q.denominator) * y
         return int(r) if e.ty == INT else Fraction(r)
+    if e.op == "modlit":
+        return a[0] % e.aux  # Python's floor modulo on int / Fraction (glue extension)
     if e.op in ("ceil", "floor", "trunc"):
         q = Fraction(a[0])
         fl = q.numerator // q.denominator  # floor (Python's // on ints)
